@@ -93,3 +93,25 @@ fn c07_levels_codec_roundtrip() {
 	core::mem::forget(levels);
 	core::mem::forget(buf);
 }
+
+/// C07-O2b: the level-count byte of the manifest is unsigned (Options::level_count is a u8 and only 0
+/// is rejected, so a store with 128..=255 levels is valid): for EVERY count byte n, decoding a level
+/// section that was cut off right after the count byte returns Ok(no levels) for n = 0 and an error for
+/// n >= 1 - it never panics (a count read as a signed byte turns 128..=255 into a huge allocation).
+/// The full round trip with >= 128 levels needs 128 unwindings of Vec-pushing loops and did not finish
+/// in 15 minutes; this formulation reaches the same byte with one iteration.
+#[kani::proof]
+#[kani::unwind(6)]
+fn c07_levels_count_byte_is_unsigned() {
+	let n: u8 = kani::any();
+	let img = [n];
+	let mut rd: &[u8] = &img[..];
+	let d = Levels::decode(&mut rd);
+	match &d {
+		Ok(v) => assert!(n == 0 && v.is_empty(), "cut-off level section accepted"),
+		Err(_) => assert!(n >= 1, "empty level section rejected"),
+	}
+	kani::cover!(n >= 128 && d.is_err(), "count byte >= 128 handled as a count");
+	kani::cover!(n == 0, "no levels");
+	core::mem::forget(d);
+}
